@@ -24,7 +24,7 @@ FLOORS = {"quick": {"pairs": 10000, "flag:fastest_is_not_fewest_links": 300}, "t
 @st.composite
 def st_case(draw) -> Dict[str, Any]:
     net = draw(st.sampled_from(["gen", "gen", "gen", "denver"]))
-    g = draw(graphs.st_graph(5, 14, arbitrary_lengths=draw(st.booleans()))) if net == "gen" else None
+    g = draw(graphs.st_graph(5, 14, arbitrary_lengths=draw(st.booleans()), scales=(1, 1, 1, 3, 10))) if net == "gen" else None
     pairs = draw(st.lists(st.tuples(st.integers(0, 1000), st.integers(0, 1000)).map(list), min_size=1, max_size=12))
     return {"net": net, "graph": g, "pairs": pairs}
 
